@@ -295,7 +295,7 @@ static void run_rows(vh::Trace& tr, int tier, int only, vh::Rng& rng) {
     maybe_open(); rec.full_pass(f, sw_from_bits(31), true, true, 1);
     maybe_open(); rec.full_pass(f, sw_from_bits(31), true, false, f.geoms.size() > 1 ? 2 : 1);
     // every requested switch setting x cache disabled / basic bins only / everything
-    const int len = tier > 0 ? 160 : 110;
+    const int len = tier > 0 ? 160 : 80;
     for (int mask = 0; mask < 32; ++mask)
       for (int mode = 0; mode < 3; ++mode) {
         maybe_open();
